@@ -57,7 +57,10 @@ def qual(n):
 
 
 def norm_type(q):
-    q = q.replace("const ", "").replace(" const", "").replace("volatile ", "").strip()
+    q = re.sub(r"\b(const|volatile)\b", " ", q)
+    q = re.sub(r"\s+", " ", q).strip()
+    q = re.sub(r"\s*\*", " *", q)               # "T *const" and "T*" both read "T *"
+    q = re.sub(r"\*\s+\*", "**", q).replace("* *", "**")
     q = q.rstrip("&").strip()
     return q
 
